@@ -410,6 +410,66 @@ def sgM : Machine := { S := SgS, A := SgA, step := sgStep }
 def sgInit (n waiters : Nat) (script : List Step) : SgS :=
   { n := n, spawned := n, counter := n, waiting := waiters, script := script }
 
+/-! ## outcome predicates (T-out): what an observation of the real wrapper under contention must
+    satisfy. An observation is the list of (callers returned, executions inside the function) pairs
+    noted at the quiescent points — the j-th pair after j executions have been let through the
+    gate — plus the callers' results, the invocation count and the concurrency high-water mark.
+    `FunProps/C15.lean` proves that every reachable state of the corresponding machine yields a pair
+    that passes, and every terminal state a final part that passes. -/
+
+structure Obs where
+  phases : List (Nat × Nat)
+  results : List Res
+  inv : Nat
+  maxc : Nat
+  deriving Repr
+
+def isPanicB : Res → Bool
+  | .panic _ => true
+  | .ret _ _ => false
+
+def idxAll (ps : List (Nat × Nat)) (f : Nat → Nat × Nat → Bool) : Bool :=
+  (List.zip (List.range ps.length) ps).all (fun jp => f jp.1 jp.2)
+
+/-- Once: nobody has returned while the execution is inside; one execution; everybody sees its result -/
+def oncePhaseOK (p : Nat × Nat) : Bool := decide (p.2 ≤ 1) && (p.2 == 0 || p.1 == 0)
+
+def onceFinalOK (k : Kind) (callers : Nat) (script : List Step) (results : List Res) (inv : Nat) : Bool :=
+  let first := k.proj (popStep script).1.res
+  let want := match first with | .ret v e => k.cache (.ret v e) | .panic _ => Res.zero
+  results.length == callers && decide (inv ≤ 1) && (callers == 0 || inv == 1) &&
+  results.all (fun r => r == want || (isPanicB first && r == first))
+
+def allowedOnce (k : Kind) (callers : Nat) (script : List Step) (o : Obs) : Bool :=
+  o.phases.all oncePhaseOK && decide (o.maxc ≤ 1) && onceFinalOK k callers script o.results o.inv
+
+/-- limitExec: one execution at a time; while the (j+1)-th execution is inside exactly j callers have returned -/
+def limPhaseOK (j : Nat) (p : Nat × Nat) : Bool := decide (p.2 ≤ 1) && (p.2 == 0 || p.1 == j)
+
+def limFinalOK (n callers : Nat) (results : List Res) (inv : Nat) : Bool :=
+  let npan := (results.filter isPanicB).length
+  results.length == callers && decide (npan ≤ inv) && (inv - npan == min n (callers - npan))
+
+def allowedLimit (n callers : Nat) (o : Obs) : Bool :=
+  idxAll o.phases limPhaseOK && decide (o.maxc ≤ 1) && limFinalOK n callers o.results o.inv
+
+/-- Operation.Limit: never more than n executions begun; min n calls at the end -/
+def allowedOpLimit (n callers : Nat) (o : Obs) : Bool :=
+  o.phases.all (fun p => decide (p.2 ≤ n)) && decide (o.maxc ≤ n) &&
+  o.results.length == callers && o.inv == min n callers
+
+/-- Lock: one execution at a time; every call is one execution -/
+def allowedLock (callers : Nat) (o : Obs) : Bool :=
+  o.phases.all (fun p => decide (p.2 ≤ 1)) && decide (o.maxc ≤ 1) && o.results.length == callers && o.inv == callers
+
+/-- Signal/Launch/Background: no waiter has returned while the background execution is inside -/
+def allowedBg (waiters : Nat) (o : Obs) : Bool :=
+  o.phases.all (fun p => decide (p.2 ≤ 1) && (p.2 == 0 || p.1 == 0)) && o.results.length == waiters && o.inv == 1
+
+/-- StartGroup: no waiter has returned while any of the n executions is unfinished -/
+def allowedSg (n waiters : Nat) (o : Obs) : Bool :=
+  o.phases.all (fun p => decide (p.2 ≤ n) && (p.2 == 0 || p.1 == 0)) && o.results.length == waiters && o.inv == n
+
 /-! ## canonical simulation used by the driver: run internal actions (picked by the case's choice
     list) to quiescence, note (returned, inside), let one execution end, repeat -/
 
